@@ -210,6 +210,13 @@ Section Resolve.
       the order of the [Dir] list (the harness sends scandir order). *)
   Definition triple := (str * list str * list str * list str)%type.
 
+  (** results of the sub-walks, in order; the first error wins *)
+  Fixpoint concat_res {A : Type} (l : list (res (list A))) : res (list A) :=
+    match l with
+    | [] => Ok []
+    | r :: l' => do a <- r; do b <- concat_res l'; Ok (a ++ b)
+    end.
+
   Section Walk.
     Variable fuel : nat.                        (* for the stats *)
     Variable followlinks : bool.
@@ -234,25 +241,22 @@ Section Resolve.
       | Dir es =>
           do p <- scan loc (map fst es);
           do subs <-
-            (fix go (es : entries) : res (list triple) :=
-               match es with
-               | [] => Ok []
-               | (d, child) :: es' =>
-                   do here <-
-                     match resolve fuel loc [d] with
-                     | RDir loc' =>
-                         if keep base d then
-                           match child with
-                           | Dir _ => walk_node rec (join base d) loc' child
-                           | Symlink _ => if followlinks then rec (join base d) loc' else Ok []
-                           | File _ => Ok []
-                           end
-                         else Ok []
-                     | _ => Ok []
-                     end;
-                   do rest <- go es';
-                   Ok (here ++ rest)
-               end) es;
+            concat_res
+              (map (fun e : str * fsnode =>
+                      match e with
+                      | (d, child) =>
+                          match resolve fuel loc [d] with
+                          | RDir loc' =>
+                              if keep base d then
+                                match child with
+                                | Dir _ => walk_node rec (join base d) loc' child
+                                | Symlink _ => if followlinks then rec (join base d) loc' else Ok []
+                                | File _ => Ok []
+                                end
+                              else Ok []
+                          | _ => Ok []
+                          end
+                      end) es);
           Ok ((base, loc, filter (keep base) (fst p), snd p) :: subs)
       | _ => Ok []
       end.
